@@ -29,17 +29,23 @@ Blocked(s, t) == s.st[t+1] \in {"called", "queued"} /\ Steps(s, t) = {}
 Apply(e) ==
   CASE e.e = "exec" -> S' = Init0(ProgsIn[ProgIdx(e.p)], ProgIdx(e.p))
     [] e.e = "start" -> S' = S
-    [] e.e = "call" -> /\ S.st[e.t+1] = "idle"
+    [] e.e = "call" -> /\ S.st[e.t+1] = "idle" /\ ~S.fin[e.t+1]
                        /\ S' = Register([S EXCEPT !.pend[e.t+1] = [k |-> e.k, o |-> e.o, v |-> e.v], !.st[e.t+1] = "called"], e.t)
     [] e.e = "ret" -> /\ S.st[e.t+1] = "done" /\ S.res[e.t+1] = e.r
                       /\ S' = [S EXCEPT !.st[e.t+1] = "idle", !.pend[e.t+1] = NoOp]
     [] e.e = "fin" -> S.st[e.t+1] = "idle" /\ S' = [S EXCEPT !.fin[e.t+1] = TRUE]
+    \* the future of an aborted task was dropped (at an await point: a pending operation has not completed)
+    \* (its effects - see CancelLin - may have become visible to other tasks before this is logged)
+    [] e.e = "cancel" -> \/ e.t \in S.gone /\ S' = S
+                         \/ e.t \in S.ab /\ ~S.fin[e.t+1] /\ S.st[e.t+1] \in {"idle", "called", "queued"}
+                            /\ \E s2 \in Cancelled(S, e.t) : S' = [s2 EXCEPT !.gone = @ \cup {e.t}]
     [] e.e = "end" ->
-         /\ CASE e.v = "ok" -> \A t \in Tasks(S) : S.fin[t+1]
+         /\ CASE e.v = "ok" -> \A t \in Tasks(S) : S.fin[t+1] \/ (t \in S.ab /\ S.st[t+1] = "idle")
               \* the tasks named are the unfinished ones, and none of them can make progress in the model
               [] e.v = "deadlock" ->
                    \* (the main task joins the others after its own body: it is always among the blocked ones)
-                   LET U == {t \in Tasks(S) \ {0} : ~S.fin[t+1]} IN
+                   \* (a task aborted before it ever ran, or between two operations, is simply gone)
+                   LET U == {t \in Tasks(S) \ {0} : ~S.fin[t+1] /\ ~(t \in S.ab /\ S.st[t+1] = "idle")} IN
                    /\ Range(e.bl) = U \cup {0}
                    /\ \A t \in U : Blocked(S, t)
                    /\ IF S.fin[1] THEN U # {} ELSE Blocked(S, 0)
@@ -51,6 +57,10 @@ Next == \/ \E c \in Range(Nodes[node].kids) : node' = c /\ Apply(Nodes[c].ev)
         \* linearization: a pending operation takes (the next part of) its effect
         \/ /\ S.p # 0 /\ node' = node
            /\ \E t \in Pending(S) : S' \in Steps(S, t)
+        \* the future of an aborted task is dropped at an await point
+        \/ /\ S.p # 0 /\ node' = node
+           /\ \E t \in S.ab : /\ ~S.fin[t+1] /\ S.st[t+1] \in {"called", "queued"}
+                               /\ \E s2 \in Cancelled(S, t) : S' = [s2 EXCEPT !.gone = @ \cup {t}]
 Spec == Init /\ [][Next]_vars
 
 LeafInv == (Nodes[node].kids = <<>> => PrintT(<<"LEAF", node, {}>>))
